@@ -7,6 +7,7 @@ duplicate entries).  A small reference model is stepped alongside, operation by 
 from __future__ import annotations
 
 import copy
+import json
 import pickle
 import re
 
@@ -21,7 +22,7 @@ MUTATIONS = {
     'shoc_simple': ['no_ems_version', 'rename_dim'],
     'shoc_standard': ['rename_coord_left', 'drop_coord_grid'],
     'cf1d': ['strip_coord_attrs'],
-    'cf2d': ['strip_coord_attrs'],
+    'cf2d': ['strip_coord_attrs', 'projected_axes', 'projected_axes'],
 }
 COPY_HOWS = ['copy', 'copy_deep', 'copy_module', 'deepcopy_module', 'pickle']
 
@@ -181,7 +182,12 @@ class BindSim:
                         ops.append({'op': 'detect', 'ds': rng.randrange(n_ds)})
             lifetimes_.append({'env': env, 'ops': ops})
         from sim import seams
-        return {'engine': self.name, 'datasets': datasets, 'lifetimes': lifetimes_, 'penv': seams.gen_process_env(rng)}
+        plan = {'engine': self.name, 'datasets': datasets, 'lifetimes': lifetimes_, 'penv': seams.gen_process_env(rng)}
+        if rng.random() < 0.012:
+            # "a function of the dataset's content alone": every lifetime is also run as the main program of a fresh
+            # interpreter under another hash seed; op for op it must report the same thing
+            plan['twin_hashseed'] = rng.randrange(1, 100000)
+        return plan
 
     def shrink(self, plan):
         if len(plan['lifetimes']) > 1:
@@ -241,6 +247,21 @@ class BindSim:
                         did_detect = True
                 elif kind == 'probe':
                     out.stats[f'probe.{payload["name"]}'] += 1
+            if plan.get('twin_hashseed'):
+                twin = lifetimes.run_lifetime_fresh('engines.bindsim', '_bind_lifetime', (plan['datasets'], lt, plan.get('penv')), scratch,
+                                                    env={'PYTHONHASHSEED': str(plan['twin_hashseed'])})
+                if twin['status'] != 'exit':
+                    out.harness_error = f'twin lifetime {li}: status {twin["status"]}: {twin["error"]}'
+                    return
+                out.stats['probe.lifetime_repeated_in_fresh_interpreter_other_hashseed'] += 1
+                a_ = [json.dumps(e_, sort_keys=True, default=str) for e_ in res['events']]
+                b_ = [json.dumps(e_, sort_keys=True, default=str) for e_ in twin['events']]
+                if a_ != b_:
+                    k_ = next((i_ for i_, (x_, y_) in enumerate(zip(a_, b_)) if x_ != y_), min(len(a_), len(b_)))
+                    out.violate('C11', 'differs-across-processes', None,
+                                f'lifetime {li}: under PYTHONHASHSEED={plan["twin_hashseed"]} event {k_} is {b_[k_][:200] if k_ < len(b_) else None}, '
+                                f'in the harness process {a_[k_][:200] if k_ < len(a_) else None}')
+                out.event('twin', lt=li, same=a_ == b_)
             for e in lt['env']:
                 if e['kind'] != 'real':
                     out.stats[f'fault.entry_point.{e["kind"]}'] += 1
@@ -298,6 +319,14 @@ def _build_dataset(desc):
             ds = ds.rename({'x_left': 'x_port'})
         elif mut == 'drop_coord_grid':
             ds = ds.drop_vars('y_grid')
+        elif mut == 'projected_axes':
+            # a projected model grid: one-dimensional y / x axis coordinates (metres) next to the two-dimensional
+            # latitude / longitude -- both CF grid conventions have something to hold on to
+            w_ = desc['world']
+            ds = ds.assign_coords({
+                'y_axis': ((w_['ydim'],), numpy.arange(ds.sizes[w_['ydim']], dtype='float64') * 1000.0, {'axis': 'Y', 'units': 'm', 'standard_name': 'projection_y_coordinate'}),
+                'x_axis': ((w_['xdim'],), numpy.arange(ds.sizes[w_['xdim']], dtype='float64') * 1000.0, {'axis': 'X', 'units': 'm', 'standard_name': 'projection_x_coordinate'}),
+            })
         elif mut == 'strip_coord_attrs':
             for name in list(ds.variables):
                 for a in ('units', 'standard_name', 'axis'):
@@ -737,7 +766,13 @@ def _bind_lifetime(ctx, dataset_descs, lt, penv=None):
                         a, b = emsarray.get_dataset_convention(new), emsarray.get_dataset_convention(ds)
                     except KeyError:
                         a = b = None
-                    if a is not b:
+                    ambiguous = h < len(dataset_descs) and dataset_descs[h].get('mut') == 'projected_axes'
+                    if ambiguous:
+                        # a dataset that offers *two* sets of grid coordinates (1-D axes and 2-D latitude / longitude): emsarray
+                        # takes the first it meets, so the order of the variables is part of what decides -- order is content
+                        # too, the statement does not promise otherwise
+                        probe('reorder_of_ambiguous_dataset_not_judged')
+                    elif a is not b:
                         fail('content-alone', f'dataset #{h}: the same variables in another order are detected as {a}, originally {b}')
                     probe('reordered_variables_detected')
                 else:
@@ -748,6 +783,8 @@ def _bind_lifetime(ctx, dataset_descs, lt, penv=None):
                 dataset_descs = list(dataset_descs)
                 dataset_descs.append(dataset_descs[h] if h < len(dataset_descs) else {'world': None, 'mut': None, 'markers': {}})
                 mutated[nh] = mutated.get(h, 0)
+                if how == 'reorder' and h < len(dataset_descs) and dataset_descs[h].get('mut') == 'projected_axes':
+                    mutated[nh] = mutated[nh] + 1      # not the dataset its description rebuilds: the order differs, and here order decides
                 if state_conv(new) is not None:
                     fail('copy-independent', f'derived dataset ({how}) of #{h} arrived bound')
             elif kind == 'mutate':
